@@ -1,5 +1,6 @@
 import Ruint.Lemmas.Conv
 import Ruint.Lemmas.GenConv
+import Ruint.Lemmas.GenFls
 
 /-!
 # C07 — integer conversions accept exactly the representable range, preserving value
@@ -477,5 +478,14 @@ theorem gen_to_bool_eq : Ruint.Gen.bool_try_from_uint f bits (nlimbs bits) l = t
   bool_try_from_uint_eq bits hN l hl f hf
 
 end toPrim
+
+/-- `Uint` ← `Uint` of another width (`UintTryFrom<Uint<..>>`, `from_uint`, `checked_from_uint`) as regenerated from
+    `src/from.rs` over the regenerated `overflowing_from_limbs_slice` equals the models. -/
+theorem gen_uint_from_uint_eq (bs ls bits : ℕ) (hN : nlimbs bits < 2 ^ 64) (sl : List ℕ) (hw : Ruint.AllLt sl) :
+    Ruint.GenFls.toToRes (Ruint.Gen.uint_try_from_uint bits (nlimbs bits) sl) = uintTryFrom bits sl
+    ∧ Ruint.GenFls.toRes (Ruint.Gen.uint_from_uint bs ls bits (nlimbs bits) sl) = Ruint.Canon.fromLimbsSlice bits sl
+    ∧ Ruint.GenFls.toResO (Ruint.Gen.uint_checked_from_uint bs ls bits (nlimbs bits) sl) = Ruint.Canon.checkedFromLimbsSlice bits sl :=
+  ⟨Ruint.GenFls.try_from_uint_eq bits hN sl hw, Ruint.GenFls.from_uint_eq bs ls bits hN sl hw,
+   Ruint.GenFls.checked_from_uint_eq bs ls bits hN sl hw⟩
 
 end Ruint.C07
